@@ -54,6 +54,15 @@ Base(lg, h, withTerrain) ==
    mappings |-> << <<1,0,2,0,3,0,4,0>> >>, terrains |-> IF withTerrain THEN <<11>> ELSE <<>>,
    groups |-> << [w |-> 2, h |-> 1, idx |-> << <<1,0,0,0>>, <<2,0,0,0>> >>, name |-> <<103>>], [w |-> 0, h |-> 3, idx |-> <<>>, name |-> <<>>] >>]
 Emit(id, kind, fault, segs, must) == PrintT("S|" \o ToJson([id |-> id, steps |-> << [op |-> "robust_map", kind |-> kind, fault |-> fault, segs |-> segs, must |-> must] >>]))
+\* C06 on whatever the reader accepts among these images: when the fault leaves the layout of the file as it is (it hits a field that no later
+\* byte's position depends on), the written bytes must equal the consumed bytes except the saved-game word (normalised to 0 / 1) and the
+\* undocumented word of the tile-group header (regenerated); unkOff = 0 means "layout not known, no such demand"
+NonStructural == {"ver", "ver2", "ver3", "saved", "unknown", "src.numTiles"}
+IndexOfPart(parts, name) == CHOOSE i \in 1..Len(parts) : parts[i].n = name
+EmitMap(id, fault, parts, must, layoutKnown) ==
+  PrintT("S|" \o ToJson([id |-> id, steps |-> << [op |-> "robust_map", kind |-> "map", fault |-> fault, segs |-> Segs(parts), must |-> must,
+                                                   flagOff |-> OffsetOf(parts, IndexOfPart(parts, "saved")),
+                                                   unkOff |-> IF layoutKnown THEN OffsetOf(parts, IndexOfPart(parts, "unknown")) ELSE 0] >>]))
 \* sampled cut points of a long zero run [a, b): both ends and powers of two in between
 Cuts(a, b) == {a, a + 1, b - 1} \cup {a + Pow2(k) : k \in {x \in 0..17 : a + Pow2(x) < b}}
 Init == done = FALSE
@@ -65,10 +74,10 @@ Next == /\ ~done /\ done' = TRUE
                  parts == MapParts(m, <<0,0,0,0>>, <<1,0,0,0>>)
                  total == SegsLen(Segs(parts)) IN
              /\ Assert(FlattenSegs(Segs(parts)) = FlattenSegs(EncodeWith(m, <<0,0,0,0>>, <<1,0,0,0>>, <<>>)), "the parts view is the MapFile encoding")
-             /\ Emit(<<"base", bi>>, "map", "none", Segs(parts), "accept")
+             /\ EmitMap(<<"base", bi>>, "none", parts, "accept", TRUE)
              /\ \A k \in 0..(total - 1) : Emit(<<"prefix", bi, k>>, "map", "prefix", TruncSegs(Segs(parts), k), "refuse")
              /\ \A i \in 1..Len(parts) : parts[i].f => \A v \in Values(parts[i].n, m) :
-                  Emit(<<"field", bi, parts[i].n, OffsetOf(parts, i), v>>, "map", parts[i].n, Segs(SetField(parts, i, v)), "any")
+                  EmitMap(<<"field", bi, parts[i].n, OffsetOf(parts, i), v>>, parts[i].n, SetField(parts, i, v), "any", parts[i].n \in NonStructural)
         /\ \A ui \in 1..2 :
              LET m == Base(1, 2, ui = 2)
                  up == IF ui = 1 THEN UnitParts(3, 5, 5, 120, 1, 2) ELSE UnitParts(0, 5, 6, 120, 0, 3)
